@@ -324,6 +324,10 @@ executeProcess:
 			if err == nil {
 				p.State.Set(state.Executing)
 				p.ExitNum, err = fork.Execute(fn.Block)
+			} else {
+				// the function body never runs so the fork has to be released here
+				fork.Done()
+				GlobalFIDs.Deregister(fork.Id)
 			}
 		}
 
